@@ -42,7 +42,8 @@ CHECKS = {
         text='For every printing character (regex metacharacters included) a catalogue holding it in every position '
              'of short names is queried with the one- and two-character patterns around it; random catalogues over '
              'small alphabets are queried with patterns derived from their names under random --dir/--drive '
-             'defaults and Opus volume letters; type/list/dump are probed with present and absent names.',
+             'defaults and Opus volume letters (discs with 1-8 volumes; volume A also by the bare drive number); '
+             'type/list/dump are probed with present and absent names, names beginning with - through `type --`.',
         note='Directory letters are probed in matching case for type/list/dump; catalogue names never contain '
              '. : # * or space.'),
     'C04': dict(
@@ -58,7 +59,7 @@ CHECKS = {
     'C17': dict(
         category='fault_enumeration', design_ref='DESIGN.md section 2, C17',
         technique='boundary fault enumeration with unique-sector attribution of every output block and V/S hook limit invariant',
-        text='Catalogue entries ending boundary-2..boundary+3 sectors around the end of every Opus volume A-H, each '
+        text='Catalogue entries ending boundary-2..boundary+3 sectors around the end of every Opus volume A-H (tables in and out of disc order), each '
              'side of dsd/ddd and of two-sided HFE/HxC flux images, one-sided images and MMB slots; type --binary, dump and extract-files are judged: no '
              'output block (full or partial) may equal a container sector outside the region, overruns must fail '
              'with a diagnostic, fitting entries must be delivered; the Volume/FileView hook records must never be '
@@ -110,7 +111,8 @@ CHECKS = {
         technique='file-system monitor: before/after content snapshot of a sandbox tree plus strace -e trace=%file on a sample',
         text='Hostile catalogues (name and directory bytes over 0x01-0x7F incl. / .. - control and shell '
              'metacharacters) extracted under several --dir settings into a destination 6 levels deep with decoy files '
-             'at every level (cwd elsewhere, destination given absolute/relative, with and without trailing slash); '
+             'at every level (cwd elsewhere, destination given absolute/relative, with ./ and .// prefixes, as the mirror '
+             'of an absolute decoy path below the current directory, with and without trailing slash); '
              'every change must lie directly inside the destination, none may occur for non-extract commands, images '
              'must stay byte-identical; a sample of runs is traced with strace and every creating/modifying/removing '
              'system call is checked as well.',
@@ -120,9 +122,11 @@ CHECKS = {
         category='exploration', design_ref='DESIGN.md section 2, C05',
         technique='metamorphic monitor: the same generated disc as sector dump and as HFE v1 / HFE v3 / HxC MFM flux image, every command result compared',
         text='Generated discs (Acorn/Watford/Opus; FM 10 spt, MFM 16/18 spt; 35/40/80 tracks; one or two sides) are '
-             'encoded by an independent FM/MFM encoder with random legal gap/sync lengths, sector order, index marks, '
+             'encoded by an independent FM/MFM encoder with random legal gap/sync lengths (gap 2 up to the controller '
+             'window: FM exactly 30 bytes, MFM one inside 43), sector order, index marks, '
              'per-track length jitter, tightly packed tracks and both LUT length conventions, as HFE v1, HFE v3 with '
-             'NOP/SETINDEX/SETBITRATE/SKIPBITS 0-7 inserted anywhere, and HxC MFM; cat, free, show-titles, info, space, '
+             'NOP/SETINDEX/SETBITRATE/SKIPBITS 0-7 inserted anywhere (also a lone SKIPBITS after the last sector of '
+             'every track), and HxC MFM; cat, free, show-titles, info, space, '
              'type --binary, sector-map, dump-sector, extract-files and extract-unused must give the same stdout and '
              'status as on the ssd/sdd/dsd/ddd of the same disc.',
         note='The sector-dump run is the reference (itself checked by C01/C02/C04/C14).  16-spt discs are compared '
@@ -157,7 +161,8 @@ CHECKS = {
         text='Every container type (incl. sector counts where only the file-name hints decide the density, tiny images, '
              'MMB, flux, half-blank two-sided dumps and hostile images) is compared with its gzip copy over levels 0-9, '
              'optional header fields, compressed sizes on/next to multiples of 512/1024/32768 and 2-4 members with '
-             'boundaries on and off the 512-byte input buffer; every command and extract-files must agree.  For small '
+             'boundaries on and off the 512-byte input buffer, under paths that hold .gz and image extensions earlier '
+             'on; every command and extract-files must agree.  For small '
              'one- and two-member streams every truncation point and every (third, in quick) single-bit flip is run: '
              'zlib-valid => must equal the decompressed image, otherwise => diagnostic, non-zero status, no output.',
         note='zlib via Python decides stream validity (same library as the tool).  Trailing data that does not begin a '
@@ -170,7 +175,8 @@ CHECKS = {
              '16, noise in free space): slot total, complete info listing and geometry must match the model and cat / '
              'info / free / show-config must be identical across variants.  Directed families: Watford discs with a file at '
              '0x102/0x202/0x302, Acorn discs whose 31st entry starts in sector 2 with the marker bytes, Opus discs with 1-8 '
-             'volumes in and out of letter order on 35/40/80 tracks.',
+             'volumes in and out of letter order on 35/40/80 tracks, 35-track two-sided ssd/sdd files with catalogue-like '
+             'bodies where a 40-track second side would begin.',
         note='Forged Opus tables are deliberately incomplete (the statement excludes complete forgeries).  HDFS is not judged.'),
     'C16': dict(
         category='exploration', design_ref='DESIGN.md section 2, C16',
